@@ -66,6 +66,9 @@ type Timer struct {
 	Fire func()
 	Name string
 	dead bool
+	// Never: armed further away than the harness horizon; it stays pending (Stop reports it as such) and does
+	// not fire: a wait of years is, within any execution, a wait for ever.
+	Never bool
 }
 
 // Exec is one controlled execution.
@@ -290,7 +293,7 @@ func (x *Exec) controllerWait() {
 func (x *Exec) fireTimer() bool {
 	var best *Timer
 	for _, tm := range x.timers {
-		if tm.dead {
+		if tm.dead || tm.Never {
 			continue
 		}
 		if best == nil || tm.Due < best.Due {
@@ -504,7 +507,7 @@ func AwaitTimers() {
 	}
 	Point("await-timers", func() bool {
 		for _, tm := range x.timers {
-			if !tm.dead {
+			if !tm.dead && !tm.Never {
 				return false
 			}
 		}
